@@ -58,7 +58,11 @@ Adv == <<
   <<239,191,189>>,                          \* U+FFFD, validly encoded
   <<120,239,191,189,121>>,
   <<127>>,                                  \* DEL
-  <<9>>                                     \* TAB
+  <<9>>,                                    \* TAB
+  <<34,34>>,                                \* two double quotes
+  <<97,34,120,34,121>>,                     \* a"x"y
+  <<97,34,120,34,32,79,82,32,34,121>>,      \* a"x" OR "y   (three quotes: the middle part would become SQL)
+  <<39,120,39,32,79,82,32,39,121>>          \* 'x' OR 'y    (three single quotes)
 >>
 \* texts that Go's ParseFloat accepts or nearly accepts, typed bare
 NumLike == << <<49>>, <<50,46,53>>, <<78,97,78>>, <<73,110,102>>, <<105,110,102,105,110,105,116,121>>, <<110,97,110>>, <<49,101,57,57,57>>,
